@@ -404,6 +404,21 @@ def r197(prog, chk):
         for c in [c for c in calls_named(m, "round") if isinstance(c.func, ast.Attribute)]:
             n += 1
             ok = any(o == "truthy" and l == "self.round_geometry" for o, l, r in facts(prog, m, c))
+            # ... and under nothing else: rounding is requested for every instance, also for one that sits on a master
+            # (masters can have fractional coordinates); only early-exit guards of the method may stand in front
+            inner = [g for g in may_conds(prog, m, c) if g.kind in ("if", "boolop", "ifexp") and not is_early_exit_guard(prog, m, g)]
+            lits = [T(x) for g in inner for x in (conjuncts(g) or [g.test])]
+            # conditions under which the instance being rounded exists at all do not count
+            recv_ = c.func.value
+            base_lits = set()
+            if isinstance(recv_, ast.Name):
+                for d_ in prog.reaching(m, recv_.id, recv_):
+                    if d_.binder is not None and d_.value is not None and "instance_at" in T(d_.value):
+                        for g in may_conds(prog, m, d_.binder):
+                            if g.kind in ("if", "boolop", "ifexp") and not is_early_exit_guard(prog, m, g):
+                                base_lits |= {T(x) for x in (conjuncts(g) or [g.test])}
+            lits = [l_ for l_ in lits if l_ not in base_lits]
+            ok = ok and lits == ["self.round_geometry"]
             st = ix.enclosing_stmt(c)
             inplace = _fontmath_round_in_place()
             kind = "kerning" if "kerning" in mname or "kerning" in T(c.func.value).lower() else ("info" if "info" in mname else "glyph")
@@ -412,7 +427,7 @@ def r197(prog, chk):
             else:
                 okr = isinstance(st, ast.Assign) and T(st.targets[0]) == T(c.func.value)
             chk.ob("R19.7", f"{m.short}|{A.keytext(m.node, c)}|only under round_geometry; result kept", ok and okr, where(m, c), detail=T(st, 60),
-                   message=f"{m.short}: rounding is not tied to round_geometry (or its result is dropped)")
+                   message=f"{m.short}: rounding is not done exactly when round_geometry is set (conditions: {lits}), or its result is dropped")
     need(n == 3, f"expected rounding of kerning, info and glyph instances, found {n}")
     chk.minimum("R19.7", 4)
 
@@ -438,6 +453,8 @@ def r198(prog, chk):
 
 
 MUTANTS = [
+    M("instances that sit on a master are not rounded (seeded C19h)", "ufo2ft/instantiator.py", "Instantiator.generate_glyph_instance",
+      "if self.round_geometry:\n    glyph_instance = glyph_instance.round()", "if self.round_geometry and location_to_key(normalized_location) not in glyph_mutator.location_to_master:\n    glyph_instance = glyph_instance.round()", rule="R19.7"),
     M("master handed out without copying", "ufo2ft/instantiator.py", "Variator.instance_at",
       "copy.deepcopy(self.location_to_master[normalized_location_key])", "self.location_to_master[normalized_location_key]", rule="R19.1"),
     M("interpolation ignores the requested location", "ufo2ft/instantiator.py", "Variator.instance_at",
